@@ -39,6 +39,7 @@ class Run:
         self.on_witness = True
         self.rng = random.Random(seed)
         self._simp_cache: Dict[int, Optional[bool]] = {}
+        self._reduced: Dict[int, Expr] = {}  # condition -> equivalent condition with ring-constant sides folded
         self.requires: List[Expr] = []
         self.max_decisions = 200
 
@@ -125,6 +126,24 @@ class Run:
                     v = None
                 if v is not None:
                     return {"lt": v < 0, "le": v <= 0, "eq": v == 0}[op]
+                # one side may still be a constant in disguise (e.g. a difference that normalises to zero): replace it
+                sides = []
+                changed = False
+                for a in c.args:
+                    if a.op != "const" and E.size(a) < 4000:
+                        try:
+                            va = self.ring.const_value(a)
+                        except (TooBig, E.Unsupported, ZeroDivisionError):
+                            va = None
+                        if va is not None:
+                            a = E.const(va)
+                            changed = True
+                    sides.append(a)
+                if changed:
+                    c2 = E._cmp(op, sides[0], sides[1])
+                    if c2 is not c:
+                        self._reduced[c.id] = c2
+                        return self.simplify_cond(c2, use_smt)
         if use_smt:
             try:
                 if self.ctx.lin_refutes(E.not_(c)):
@@ -146,6 +165,7 @@ class Run:
         s = self.simplify_cond(c)
         if s is not None:
             return s
+        c = self._reduced.get(c.id, c)  # equivalent by a ring identity, easier for the solver
         pos = len(self.decisions)
         if pos >= self.max_decisions:
             raise PathLimit(f"more than {self.max_decisions} decisions on one path")
